@@ -19,6 +19,21 @@ with tempfile.TemporaryDirectory() as td:
         bad = any(c.tag in ('failure', 'error', 'skipped') for c in tc)
         (failed if bad else passed).add(name)
 missing = sorted(stable - passed)
+if missing and len(missing) <= 15:
+    # load-sensitive tests (subprocess executor timing) are re-run alone, serially
+    files = sorted({m.split("::")[0].replace(".", "/") + ".py" for m in missing})
+    with tempfile.TemporaryDirectory() as td:
+        junit = os.path.join(td, 'j.xml')
+        env = dict(os.environ, PYTHONPATH=os.path.join(root, 'src'))
+        cmd = ['/venv/bin/python', '-m', 'pytest', '-q', '-p', 'no:cacheprovider', '--timeout=900', f'--junitxml={junit}', *files]
+        subprocess.run(cmd, cwd=root, env=env, capture_output=True, text=True)
+        for tc in ET.parse(junit).getroot().iter('testcase'):
+            name = f"{tc.get('classname')}::{tc.get('name')}"
+            if not any(c.tag in ('failure', 'error', 'skipped') for c in tc):
+                passed.add(name)
+    still = sorted(stable - passed)
+    print(f"re-ran {len(files)} file(s) serially for {len(missing)} test(s) not passing under xdist load: {len(still)} still not passing")
+    missing = still
 print(f"stable_pass={len(stable)} passed_now={len(passed)} stable_not_passing={len(missing)}")
 for m in missing[:40]:
     print("  NOT PASSING:", m, "(failed)" if m in failed else "(not run)")
